@@ -21,6 +21,7 @@ const (
 type item struct {
 	kind itemKind
 	text string
+	origin string // contract clause a fact was assumed from (see downstreamPanic)
 	ob   *obligation
 }
 
@@ -35,6 +36,9 @@ type obligation struct {
 	cover   bool // must be SAT (vacuity guard)
 	site    string
 	mustFail bool // injected "ensures false" guard: must NOT be valid
+	skipItem int  // replay aid: index of an assumed fact to leave out (see downstreamPanic)
+	skipOrigin string
+	origin string
 	// results
 	status  string // unsat(discharged) | sat | unknown | timeout
 	backend string
@@ -143,6 +147,9 @@ type vc struct {
 	inlineStack map[*ssa.Function]bool
 	unresolved bool
 	readOps []readOp
+	curOrigin string
+	firstIter []firstIterEq
+	loopEntry map[*ssa.BasicBlock]loopEntryInfo
 	ghostSorts map[string]string
 }
 
@@ -240,7 +247,7 @@ func (v *vc) fact(st *state, f string) {
 	if st != nil && st.reach != "true" {
 		f = imp(st.reach, f)
 	}
-	v.items = append(v.items, item{kind: itFact, text: f})
+	v.items = append(v.items, item{kind: itFact, text: f, origin: v.curOrigin})
 }
 
 func (v *vc) rawFact(f string) {
@@ -277,7 +284,13 @@ func (v *vc) oblige(st *state, kind, label, site, cond string, props []string) *
 	v.items = append(v.items, item{kind: itOblig, ob: ob})
 	v.obls = append(v.obls, ob)
 	// after checking, the condition may be assumed downstream (standard assert-then-assume)
+	ob.origin = name
+	if kind == "inv-init" || kind == "inv-keep" {
+		ob.origin = "inv:" + label + "@" + site
+	}
+	v.curOrigin = ob.origin
 	v.fact(st, cond)
+	v.curOrigin = ""
 	return ob
 }
 
